@@ -13,7 +13,8 @@
 //	(d) histories of 2-3 handshakes over a pool holding exactly one handshake object, compared with the same
 //	    handshake on a fresh object;
 //	(e) cancellation of one side's context before each of its conn operations (close propagating or lost), and 2-3
-//	    handshakes at once on the shared pool under every schedule of their conn operations within a deviation bound.
+//	    handshakes at once on the shared pool under every schedule of their conn operations within a deviation bound;
+//	(f) as (a) with one side's checker built by a real secure service from the application's config component.
 //
 // The reference model (ref_test.go) is written from the property text and shares no code with /repo.
 package c14
@@ -75,7 +76,7 @@ func body(t *testing.T, c *vk.Ctx) {
 	for _, sub := range []struct {
 		name string
 		f    func(*guards)
-	}{{"d", w.subD}, {"a", w.subA}, {"b", w.subB}, {"c", w.subC}, {"e1", w.subE1}, {"e2", w.subE2}} {
+	}{{"d", w.subD}, {"a", w.subA}, {"b", w.subB}, {"c", w.subC}, {"e1", w.subE1}, {"e2", w.subE2}, {"f", w.subF}} {
 		t0 := time.Now()
 		sub.f(g)
 		if os.Getenv("C14_TIMING") != "" {
